@@ -12,7 +12,7 @@ from mc.report import Run, jhash
 from mc.space import explore
 
 PROP = "C10"
-RULE = ("(a) matcher histories: for every selector of Ssel and every sequence of match(rec_i) of length <=3 (4 thorough) over 7 "
+RULE = ("(a) matcher histories: for every selector of Ssel and every sequence of match(rec_i) of length <=3 (4 thorough) over 8 "
         "records, both engines: the last result (value or exception class) equals a fresh selector's on the same record, and the "
         "record is unchanged; states = distinct canonical matcher states (names bound in the matcher namespace + last record "
         "class). (b) adapters: 12 reader configurations x all record sequences <=3 over 4 record values x selectors x {text, Selector, "
@@ -42,7 +42,7 @@ def hist_records():
         other = recs.build_record(rs("sel/other", [["string", "o"], ["varint", "n"], ["string[]", "l"]], ["'other'", "77", "['a', 'b']"]))
         grouped = GroupedRecord("sel/grouped", [recs.build_record(selgrammar.RECORDS[5]), recs.build_record(
             rs("sel/other", [["string", "o"], ["varint", "n"]], ["'other'", "1"]))])
-        _RECS.extend(base + [other, grouped, recs.build_record(selgrammar.SAME_NAME_OTHER_FIELDS)])
+        _RECS.extend(base + [other, grouped, recs.build_record(selgrammar.SAME_NAME_OTHER_FIELDS), recs.build_record(selgrammar.SAME_NAMES_OTHER_TYPES)])
     return _RECS
 
 
@@ -280,7 +280,7 @@ def _run_adapter(case):
 
 def cases(tier):
     L = 4 if tier == "thorough" else 3
-    nrec = 7
+    nrec = 8
     for expr in SSEL:
         for k in range(1, L + 1):
             for hist in itertools.product(range(nrec), repeat=k):
